@@ -212,19 +212,19 @@ Proof.
   destruct (chunks_total_bound cs 0 A HA H). lia.
 Qed.
 
-(* Setattr on chunks that all reach beyond the new size *)
-Lemma cget_truncate : forall n cs p, p < n -> (forall c, In c cs -> n < fst c + zlen (snd c)) ->
+(* Setattr: below the new size the chunks resolve as before *)
+Lemma cget_truncate : forall n cs p, p < n ->
   cget (truncate_chunks n cs) p = cget cs p.
 Proof.
-  intros n. induction cs as [|c cs IH]; intros p Hp H; auto.
+  intros n. induction cs as [|c cs IH]; intros p Hp; auto.
   change (truncate_chunks n (c :: cs)) with
     ((if fst c + zlen (snd c) >? n then
         (if n - fst c >? 0 then [(fst c, firstn (Z.to_nat (n - fst c)) (snd c))] else [])
-      else []) ++ truncate_chunks n cs).
-  rewrite cget_app, IH by (auto; intros; apply H; right; auto). cbn [cget].
+      else [c]) ++ truncate_chunks n cs).
+  rewrite cget_app, IH by auto. cbn [cget].
   destruct (cget cs p); auto.
-  specialize (H c (or_introl eq_refl)).
-  destruct (fst c + zlen (snd c) >? n) eqn:E1; [|rewrite Z.gtb_ltb in E1; apply Z.ltb_ge in E1; lia].
+  destruct (fst c + zlen (snd c) >? n) eqn:E1; [|reflexivity].
+  rewrite Z.gtb_ltb in E1; apply Z.ltb_lt in E1.
   destruct (n - fst c >? 0) eqn:E2; rewrite Z.gtb_ltb in E2.
   - apply Z.ltb_lt in E2. rewrite cget_single. unfold covers. cbn [fst snd].
     assert (Hl : zlen (firstn (Z.to_nat (n - fst c)) (snd c)) = n - fst c).
@@ -235,14 +235,16 @@ Proof.
 Qed.
 
 Lemma truncate_chunks_in : forall n cs c, In c (truncate_chunks n cs) ->
-  exists c0, In c0 cs /\ fst c = fst c0 /\ fst c + zlen (snd c) <= n /\ 0 < n - fst c.
+  exists c0, In c0 cs /\ fst c = fst c0 /\ fst c + zlen (snd c) <= n.
 Proof.
   intros n cs c H. unfold truncate_chunks in H. apply in_flat_map in H. destruct H as [c0 [H0 H]].
-  destruct (fst c0 + zlen (snd c0) >? n) eqn:E1; [|destruct H].
-  destruct (n - fst c0 >? 0) eqn:E2; [|destruct H]. destruct H as [H|[]]. subst c. cbn [fst snd].
-  rewrite Z.gtb_ltb in E1, E2. apply Z.ltb_lt in E1. apply Z.ltb_lt in E2.
-  exists c0. split; auto. split; auto. split; [|lia].
-  unfold zlen in *. rewrite firstn_length. lia.
+  destruct (fst c0 + zlen (snd c0) >? n) eqn:E1.
+  - destruct (n - fst c0 >? 0) eqn:E2; [|destruct H]. destruct H as [H|[]]. subst c. cbn [fst snd].
+    rewrite Z.gtb_ltb in E1, E2. apply Z.ltb_lt in E1. apply Z.ltb_lt in E2.
+    exists c0. split; auto. split; auto.
+    unfold zlen in *. rewrite firstn_length. lia.
+  - destruct H as [H|[]]. subst c. rewrite Z.gtb_ltb in E1. apply Z.ltb_ge in E1.
+    exists c0. split; auto.
 Qed.
 
 (* ================= the POSIX reference ================= *)
@@ -546,26 +548,20 @@ Proof.
     { rewrite H2. apply file_size_attr; auto. intros c Hc. apply H5; auto. }
     cbn [trig_at] in Htr. rewrite Hfs in Htr. unfold truncate. rewrite Hfs. rewrite Hlen.
     destruct (n <? zlen f) eqn:E.
-    + (* shrinking, but no dirty list and no whole chunk in the way *)
+    + (* shrinking, but no dirty list reaches beyond the new size *)
       apply Z.ltb_lt in E.
       destruct (existsb (fun e => n <? e) (m_ends s)) eqn:E1; [discriminate|].
-      destruct (existsb (fun c => fst c + zlen (snd c) <=? n) (f_chunks (m_meta s))) eqn:E2; [discriminate|].
       assert (Hl : forall l, In l (m_iv s) -> tail_end _ l <= n).
       { intros l Hl. destruct (Z_le_dec (tail_end _ l) n); auto. exfalso.
         assert (existsb (fun e => n <? e) (m_ends s) = true).
         { apply existsb_exists. exists (tail_end _ l). split; [unfold m_ends; apply in_map; auto|]. apply Z.ltb_lt. lia. }
         congruence. }
-      assert (Hc : forall c, In c (f_chunks (m_meta s)) -> n < fst c + zlen (snd c)).
-      { intros c Hc. destruct (Z_lt_dec n (fst c + zlen (snd c))); auto. exfalso.
-        assert (existsb (fun c => fst c + zlen (snd c) <=? n) (f_chunks (m_meta s)) = true).
-        { apply existsb_exists. exists c. split; auto. apply Z.leb_le. lia. }
-        congruence. }
       constructor; cbn [m_iv m_meta f_attr f_chunks]; auto.
       * intros l Hl'. destruct (H4 l Hl'). split; auto.
-      * intros c Hc'. destruct (truncate_chunks_in n _ c Hc') as [c0 [A1 [A2 [A3 A4]]]].
+      * intros c Hc'. destruct (truncate_chunks_in n _ c Hc') as [c0 [A1 [A2 A3]]].
         destruct (H5 c0 A1). split; lia.
       * intros p Hp. rewrite Hget. destruct (p <? n) eqn:E3; [|apply Z.ltb_ge in E3; lia].
-        rewrite cget_truncate by (auto; lia). apply H6. lia.
+        rewrite cget_truncate by lia. apply H6. lia.
     + (* extending *)
       apply Z.ltb_ge in E.
       apply (minv_ext _ (pget f)).
